@@ -94,6 +94,12 @@ def reconn_scenarios(tier, rng):
         sc = S("k-cut-%d" % i, [P(1), P(1)], ["conn", "idle"], [{"p": pk, "n": 1, "o": o}], opts=opts)
         sc["reqs"].append(samp)
         out.append(sc)
+    # a keep-alive PINGREQ that cannot be written while the transport stays open (a write deadline, a broken pipe seen by
+    # the writer only): the connection is given up with THAT error, it is not reported as a ping time-out
+    for i in (1, 2, 3):
+        sc = S("k-pingwerr-%d" % i, [P(1), P(1)], ["conn", "idle"], [{"p": "PINGREQ", "n": i, "o": "writeErr"}], opts=opts)
+        sc["reqs"].append(samp)
+        out.append(sc)
     for i in range(3):
         sc = S("k-peer-%d" % i, [P(1)], ["conn"], [], opts=opts)
         sc["reqs"] += [{"k": "sample", "at": "idle"}] + [{"k": "peerclose", "at": "idle"}, {"k": "pub", "q": 1, "at": "idle"}, {"k": "sample", "at": "idle"}] * (i + 1)
